@@ -25,7 +25,7 @@ TITLE = 'file templates follow files; loader resolution'
 LEVEL = 'exploration'
 SHARDS = {'quick': 16, 'thorough': 16}
 FLOOR = {'quick': 400, 'thorough': 4000}
-REQUIRED_MONITORS = {'history-steps-compared': 3000, 'M-cook': 500, 'loads-compared': 1500}
+REQUIRED_MONITORS = {'history-steps-compared': 3000, 'M-cook': 500, 'loads-compared': 1500, 'symlink-steps': 300}
 RULE = ('histories of 4..8 (quick) / 6..14 (thorough) operations from {write(forward/backward mtime), touch, render, '
         'names, macro lookup, content_type, render-including-template, loader.load} over main.pt / lib.pt in 1..3 search '
         'directories, auto_reload on/off, through PageTemplateFile directly or through a PageTemplateLoader; non-trivial '
@@ -342,6 +342,81 @@ def run_loader_layout(ctx, rng, root):
                       {'kind': 'loadexpr'})
 
 
+
+def layer_symlinks(ctx, n):
+    """Templates reached through symbolic links (the `current -> releases/N` deployment layout, shared templates linked
+    into a site directory): the template follows the file its PATH names now, and load: looks next to the path it was
+    given - not next to wherever a link pointed when the template object was made."""
+    from chameleon import PageTemplateFile, PageTemplateLoader
+    rng = ctx.rng
+    for case in range(n):
+        root = tempfile.mkdtemp(prefix='c16s_')
+        try:
+            shape = rng.choice(['directory-link-repointed', 'file-link-load-next-to-path', 'directory-link-via-loader'])
+            if shape.startswith('directory-link'):
+                nrel = rng.randint(2, 4)
+                for k in range(nrel):
+                    os.makedirs(os.path.join(root, 'releases', 'r%d' % k))
+                    with open(os.path.join(root, 'releases', 'r%d' % k, 'page.pt'), 'w') as f:
+                        f.write('<p>release %d <i metal:define-macro="m">macro-%d</i></p>' % (k, k))
+                    mt = 1_000_000 + rng.choice([0, 0, 5 * k, -5 * k])
+                    os.utime(os.path.join(root, 'releases', 'r%d' % k, 'page.pt'), (mt, mt))
+                link = os.path.join(root, 'current')
+                os.symlink(os.path.join('releases', 'r0'), link)
+                if shape == 'directory-link-repointed':
+                    t = PageTemplateFile(os.path.join(link, 'page.pt'), auto_reload=True)
+                else:
+                    t = PageTemplateLoader([link], auto_reload=True).load('page.pt')
+                hist = []
+                for step in range(rng.randint(2, 5)):
+                    k = rng.randrange(nrel)
+                    os.remove(link)
+                    os.symlink(os.path.join('releases', 'r%d' % k), link)
+                    hist.append('current -> r%d' % k)
+                    want = '<p>release %d <i>macro-%d</i></p>' % (k, k)
+                    try:
+                        got = t()
+                    except Exception as e:
+                        got = 'RAISED %s' % type(e).__name__
+                    ctx.mon('symlink-steps')
+                    # equal modification times in two releases: the statement only promises the content of the latest
+                    # modification - a re-pointed link with an unchanged mtime is not a modification the template can see
+                    same_mtime_as_before = False
+                    if got != want:
+                        prev = [h for h in hist[:-1]]
+                        cur_mt = os.stat(os.path.join(link, 'page.pt')).st_mtime
+                        same_mtime_as_before = any(os.stat(os.path.join(root, 'releases', h.split('-> ')[1], 'page.pt')).st_mtime == cur_mt
+                                                   for h in (['current -> r0'] + prev)) and got.startswith('<p>release')
+                    if got != want and not same_mtime_as_before:
+                        ctx.violation('template-does-not-follow-the-file-its-path-names', '%s: history %r: rendered %r, the file at the path now holds %r' % (
+                            shape, hist, got, want), {'kind': 'symlink', 'shape': shape})
+                        break
+                ctx.case(key=('symlink', shape, tuple(hist)), nontrivial=len(hist) > 1)
+            else:
+                os.makedirs(os.path.join(root, 'shared'))
+                os.makedirs(os.path.join(root, 'site'))
+                with open(os.path.join(root, 'shared', 'page.pt'), 'w') as f:
+                    f.write('<p tal:define="part load: part.pt">${structure: part()}</p>')
+                with open(os.path.join(root, 'shared', 'part.pt'), 'w') as f:
+                    f.write('<i>part of SHARED</i>')
+                with open(os.path.join(root, 'site', 'part.pt'), 'w') as f:
+                    f.write('<i>part of SITE</i>')
+                os.symlink(os.path.join('..', 'shared', 'page.pt'), os.path.join(root, 'site', 'page.pt'))
+                via_loader = rng.random() < .5
+                try:
+                    t = PageTemplateLoader([os.path.join(root, 'site')]).load('page.pt') if via_loader else PageTemplateFile(os.path.join(root, 'site', 'page.pt'))
+                    got = t()
+                except Exception as e:
+                    got = 'RAISED %s' % type(e).__name__
+                ctx.mon('symlink-steps')
+                ctx.case(key=('symlink', shape, via_loader), nontrivial=True)
+                if got != '<p><i>part of SITE</i></p>':
+                    ctx.violation('load-expression-not-next-to-the-template-path', 'site/page.pt is a link to ../shared/page.pt and says load: part.pt: rendered %r, '
+                                  'the file next to the template path is site/part.pt' % got, {'kind': 'symlink', 'shape': shape})
+        finally:
+            shutil.rmtree(root, ignore_errors=True)
+
+
 def layer_package_specs(ctx):
     """Package-relative specs ('package:path'), as a name and as a search-path entry, resolve to the package's file."""
     from chameleon import PageTemplateFile, PageTemplateLoader
@@ -403,6 +478,7 @@ def run(ctx):
             shutil.rmtree(root, ignore_errors=True)
     if ctx.shard == 0:
         layer_package_specs(ctx)
+    layer_symlinks(ctx, 12 if ctx.quick else 200)
     for i in range(100 if ctx.quick else 500):
         root = tempfile.mkdtemp(prefix='c16l_')
         try:
